@@ -476,7 +476,9 @@ evtag_unmarshal(struct evbuffer *src, ev_uint32_t *ptag, struct evbuffer *dst)
 	if ((len = evtag_unmarshal_header(src, ptag)) == -1)
 		return (-1);
 
-	if (evbuffer_add(dst, evbuffer_pullup(src, len), len) == -1)
+	/* an empty payload has nothing to pull up (and memcpy() must not be
+	 * handed a NULL source, even for 0 bytes) */
+	if (len > 0 && evbuffer_add(dst, evbuffer_pullup(src, len), len) == -1)
 		return (-1);
 
 	evbuffer_drain(src, len);
